@@ -285,7 +285,7 @@ impl quote::ToTokens for ImplWhereClauseGenerator<'_, '_, '_> {
                 // Impl<T> bounds
 
                 let has_bounds = self.trait_fns.iter().any(|trait_fn| match &trait_fn.deps {
-                    FnDeps::Generic { trait_bounds, .. } => !trait_bounds.is_empty(),
+                    FnDeps::Generic { trait_bounds, .. } => trait_bounds.iter().any(is_restatable_bound),
                     _ => false,
                 });
 
@@ -337,9 +337,21 @@ fn push_impl_t_bounds(
 
     for trait_fn in trait_fns {
         if let FnDeps::Generic { trait_bounds, .. } = &trait_fn.deps {
-            for bound in trait_bounds {
+            for bound in trait_bounds.iter().filter(|bound| is_restatable_bound(bound)) {
                 bound_punctuator.push(bound);
             }
         }
+    }
+}
+
+/// The implementing type is `Sized + 'static`: relaxed (`?Sized`) and lifetime bounds
+/// of the deps parameter hold trivially, and neither may be restated in a where clause.
+fn is_restatable_bound(bound: &syn::TypeParamBound) -> bool {
+    match bound {
+        syn::TypeParamBound::Trait(trait_bound) => {
+            !matches!(trait_bound.modifier, syn::TraitBoundModifier::Maybe(_))
+        }
+        syn::TypeParamBound::Lifetime(_) => false,
+        _ => true,
     }
 }
